@@ -24,9 +24,13 @@ import NitroVerif.Lemmas.SkipConcSearch
                             was linked behind the old position: the `present` part for these two paths);
     `C15_seek_ge_partial`   `Seek x` (and the re-search of `Next`, which is the same findPath) ends with
                             `key prev < x ≤ key curr` for the positions it installs;
-    `C15_research_ge_partial` the re-search path of `Next` installs a position whose key is not smaller than the
-                            old one (the searched item IS the old position's item, an invariant of the call):
-                            together with `C15_monotone_partial` an iterator never goes backwards on any path.
+    `C15_research_ge_partial` the re-search path of `Next`, and the automatic `Refresh` at the END of `Next` (finite
+                            `SetRefreshInterval`), install a position whose key is not smaller than the old one
+                            (the searched item IS the old position's item, an invariant of the call):
+                            together with `C15_monotone_partial` an iterator never goes backwards on any path;
+    `C15_refresh_after_step` the refresh re-seeks the item the cursor has just moved TO (it starts after the step:
+                            the model's `afterNext`; `skeleton_SkiplistIteratorNext_ok` pins `it.Refresh` as the
+                            last call of Next), so no item is returned twice or skipped because of it;
     `C15_seek_no_stable_between` `Seek x` (and the re-search of `Next`) lands on a position such that every node
                             published before the call, still unmarked and with key ≥ x is that position or lies
                             behind it: "no stable item in between" — through the search invariant `SInv`, no
@@ -42,10 +46,11 @@ namespace NitroVerif.SkipConc
 open NitroVerif
 
 /-- `Next` by the plain advance or a successful helpDelete: strictly larger key, and the new position is the
-    level-0 successor recorded in the old position's word -/
+    level-0 successor recorded in the old position's word.  The segment has completed the move when it returns
+    (`idle`) or parks at ITER_REFRESH (the automatic refresh comes AFTER the move, `afterNext`). -/
 theorem C15_monotone_partial {sh : Shared} {th : Thread} (H : HInv sh.heap) (hT : TInv sh.heap th) (it : Nat)
     (hpc : th.pc = .iterNext it ∨ ∃ next, th.pc = .iterHelp it next)
-    (hret : (stepThread sh th).2.1.pc = .idle) :
+    (hret : (stepThread sh th).2.1.pc = .idle ∨ (stepThread sh th).2.1.pc = .iterRefresh it) :
     Key.lt (keyOf sh.heap (th.iter it).curr) (keyOf sh.heap ((stepThread sh th).2.1.iter it).curr) ∧
     (∃ m, word? sh.heap (th.iter it).curr 0 = some (((stepThread sh th).2.1.iter it).curr, m)) ∧
     ((stepThread sh th).2.1.iter it).curr < sh.heap.length := by
@@ -59,35 +64,41 @@ theorem C15_monotone_partial {sh : Shared} {th : Thread} (H : HInv sh.heap) (hT 
   have hc1 : (th.iter it).curr ≠ 1 := by
     intro e; rw [e, H.tailKey] at hk; simp at hk
   have hp := hT.2.2
-  generalize hI : th.iter it = I at *
   rcases hpc with hpc | ⟨next, hpc⟩
-  · unfold stepThread at hret ⊢
-    rw [hpc] at hret ⊢
-    simp only [stepIterNext, hI] at hret ⊢
-    split at hret
-    · simp at hret
-    · rename_i hm
-      rw [if_neg hm]
+  · have hst : stepThread sh th = stepIterNext sh th it := by unfold stepThread; rw [hpc]
+    rw [hst] at hret ⊢
+    unfold stepIterNext at hret ⊢
+    simp only [] at hret ⊢
+    by_cases hm : (getNext sh.heap (th.iter it).curr 0).2 = true
+    · rw [if_pos hm] at hret; rcases hret with h | h <;> simp at h
+    · rw [if_neg hm]
       obtain ⟨⟨p, m⟩, hw⟩ := Option.isSome_iff_exists.mp (H.word0 _ hc hc1)
-      rw [getNext_of_word hw]
-      simp [Thread.iter, Thread.iter?, Thread.setIter, find?_setIter]
-      exact ⟨H.h5 _ _ _ hw, by cases m <;> simp [hw], H.lt_of_word hw⟩
+      have hpos := (afterNext_pos sh (th.moveIter it (th.iter it).curr (getNext sh.heap (th.iter it).curr 0).1) it).2
+      rw [moveIter_iter] at hpos
+      rw [hpos]
+      simp only [getNext_of_word hw]
+      exact ⟨H.h5 _ _ _ hw, ⟨m, hw⟩, H.lt_of_word hw⟩
   · rw [hpc] at hp
-    simp only [PCInv, hI] at hp
-    unfold stepThread at hret ⊢
-    rw [hpc] at hret ⊢
-    simp only [stepIterHelp, hI] at hret ⊢
-    split at hret
-    · rename_i hs
-      rw [if_pos hs]
-      simp [Thread.iter, Thread.iter?, Thread.setIter, find?_setIter]
-      exact ⟨H.h5 _ _ _ hp.1, .inr hp.1, H.lt_of_word hp.1⟩
-    · simp [startFind] at hret
+    simp only [PCInv] at hp
+    have hst : stepThread sh th = stepIterHelp sh th it next := by unfold stepThread; rw [hpc]
+    rw [hst] at hret ⊢
+    unfold stepIterHelp at hret ⊢
+    simp only [] at hret ⊢
+    by_cases hs : (dcas sh.heap (th.iter it).prev 0 (th.iter it).curr next false).2 = true
+    · rw [if_pos hs]
+      have hpos := (afterNext_pos (helpStats sh (dcas sh.heap (th.iter it).prev 0 (th.iter it).curr next false).1
+        (dcas sh.heap (th.iter it).prev 0 (th.iter it).curr next false).2 0 (th.iter it).curr)
+        (th.moveIter it (th.iter it).prev next) it).2
+      rw [moveIter_iter] at hpos
+      rw [hpos]
+      exact ⟨H.h5 _ _ _ hp.1, ⟨true, hp.1⟩, H.lt_of_word hp.1⟩
+    · rw [if_neg hs] at hret; rcases hret with h | h <;> simp [startFind] at h
 
-/-- the positions installed by a findPath that serves an iterator (`Seek`, or the re-search of `Next`) bracket
-    the searched item: `key prev < item ≤ key curr` -/
+/-- the positions installed by a findPath that serves an iterator (`Seek`, the re-search of `Next`, the Seek of
+    `Refresh`) bracket the searched item: `key prev < item ≤ key curr` -/
 theorem C15_seek_ge_partial {sh : Shared} {th : Thread} (hT : TInv sh.heap th) (fp : FP) (rr : Bool) (it : Nat)
-    (hpc : th.pc = .findNext fp rr) (hcont : fp.cont = .iterSeek it ∨ fp.cont = .iterNext it)
+    (hpc : th.pc = .findNext fp rr)
+    (hcont : fp.cont = .iterSeek it ∨ fp.cont = .iterNext it ∨ fp.cont = .iterRefresh it)
     (hret : (stepThread sh th).2.2 ≠ "at HELP_DELETE" ∧ (stepThread sh th).2.2 ≠ "at FIND_NEXT" ∧
             (stepThread sh th).2.2 ≠ "at FIND_LEVEL") :
     Key.lt (keyOf sh.heap ((stepThread sh th).2.1.iter it).prev) (.fin fp.item) ∧
@@ -102,34 +113,52 @@ theorem C15_seek_ge_partial {sh : Shared} {th : Thread} (hT : TInv sh.heap th) (
   have hcont1 : fp1.cont = fp.cont := by rw [← hfp1]; split <;> rfl
   have hprev : fp1.prev = fp.prev := by rw [← hfp1]; split <;> rfl
   rw [← hcont1] at hcont
-  obtain ⟨h1, h2⟩ := afterRead_iter (sh := sh) (th := th) fp1 _ _ it hb hcont hret
-  rw [h1]
+  obtain ⟨⟨h1p, h1c⟩, h2⟩ := afterRead_iter (sh := sh) (th := th) fp1 _ _ it hb hcont hret
+  rw [h1p, h1c]
   refine ⟨by rw [hprev]; exact hp.1.2.2.1, ?_⟩
   intro c
   rw [← hitem] at c
   exact h2 ((findAdvance_iff _).mpr ((compare_neg_iff _ _).mpr c))
 
-/-- the re-search path of `Next` (helpDelete failed, findPath for the item under the cursor) never goes
-    backwards: the position it installs has a key that is NOT smaller than the key of the old position -/
+/-- the re-search path of `Next` (helpDelete failed, findPath for the item under the cursor) and the automatic
+    `Refresh` at the end of `Next` (Seek of the item under the cursor — the item the cursor has just moved TO, not
+    yet returned to the caller) never go backwards: the position installed has a key that is NOT smaller than the
+    key of the position before the search -/
 theorem C15_research_ge_partial {sh : Shared} {th : Thread} (hT : TInv sh.heap th) (fp : FP) (rr : Bool) (it : Nat)
-    (hpc : th.pc = .findNext fp rr) (hcont : fp.cont = .iterNext it)
+    (hpc : th.pc = .findNext fp rr) (hcont : fp.cont = .iterNext it ∨ fp.cont = .iterRefresh it)
     (hret : (stepThread sh th).2.2 ≠ "at HELP_DELETE" ∧ (stepThread sh th).2.2 ≠ "at FIND_NEXT" ∧
             (stepThread sh th).2.2 ≠ "at FIND_LEVEL") :
     ¬ Key.lt (keyOf sh.heap ((stepThread sh th).2.1.iter it).curr) (keyOf sh.heap (th.iter it).curr) := by
   have hp := hT.2.2
   rw [hpc] at hp
   have hc : ContInv sh.heap th fp.item fp.cont := hp.1.2.2.2.1
-  rw [hcont] at hc
-  simp only [ContInv] at hc
-  rw [hc]
-  exact (C15_seek_ge_partial hT fp rr it hpc (.inr hcont) hret).2
+  have hkey : keyOf sh.heap (th.iter it).curr = .fin fp.item := by
+    rcases hcont with h | h <;> (rw [h] at hc; simpa only [ContInv] using hc)
+  rw [hkey]
+  exact (C15_seek_ge_partial hT fp rr it hpc (by rcases hcont with h | h <;> simp [h]) hret).2
 
-/-- `Seek x` lands on an item ≥ x WITH NO STABLE ITEM IN BETWEEN (and so does the re-search of `Next`): every node
-    that was published before this findPath call started, is still unmarked at level 0 and has a key ≥ x is the
-    landing position itself or has a larger key than it.  `HInv`, `TInv`, `SInv` hold in every reachable state. -/
+/-- the automatic refresh is started only AFTER the cursor has moved, for the item now under the cursor: the
+    segment parked at ITER_REFRESH searches for the key of the current position -/
+theorem C15_refresh_after_step {sh : Shared} {th : Thread} (hT : TInv sh.heap th) (it : Nat)
+    (hpc : th.pc = .iterRefresh it) :
+    ∃ fp, (stepThread sh th).2.1.pc = .findLevel fp ∧ fp.cont = .iterRefresh it ∧
+      keyOf sh.heap (th.iter it).curr = .fin fp.item := by
+  have hp := hT.2.2
+  rw [hpc] at hp
+  obtain ⟨k, hk⟩ := hp
+  unfold stepThread
+  rw [hpc]
+  simp only [stepIterRefresh, startFind]
+  exact ⟨_, rfl, rfl, by rw [hk]; rfl⟩
+
+/-- `Seek x` lands on an item ≥ x WITH NO STABLE ITEM IN BETWEEN (and so do the re-search of `Next` and the Seek of
+    `Refresh`): every node that was published before this findPath call started, is still unmarked at level 0 and
+    has a key ≥ x is the landing position itself or has a larger key than it.  `HInv`, `TInv`, `SInv` hold in every
+    reachable state. -/
 theorem C15_seek_no_stable_between {sh : Shared} {th : Thread} (H : HInv sh.heap) (hT : TInv sh.heap th)
     (hS : SInv sh.heap th) (fp : FP) (rr : Bool) (it : Nat)
-    (hpc : th.pc = .findNext fp rr) (hcont : fp.cont = .iterSeek it ∨ fp.cont = .iterNext it)
+    (hpc : th.pc = .findNext fp rr)
+    (hcont : fp.cont = .iterSeek it ∨ fp.cont = .iterNext it ∨ fp.cont = .iterRefresh it)
     (hret : (stepThread sh th).2.2 ≠ "at HELP_DELETE" ∧ (stepThread sh th).2.2 ≠ "at FIND_NEXT" ∧
             (stepThread sh th).2.2 ≠ "at FIND_LEVEL") :
     ∀ n, n < fp.startLen → unmarked0 sh.heap n → ¬ Key.lt (keyOf sh.heap n) (.fin fp.item) →
@@ -146,8 +175,8 @@ theorem C15_seek_no_stable_between {sh : Shared} {th : Thread} (H : HInv sh.heap
     rw [← hfp1]; split <;> rfl
   rw [← hcont1] at hcont
   simp only [] at hret ⊢
-  obtain ⟨h1, _⟩ := afterRead_iter (sh := sh) (th := th) fp1 _ _ it hb hcont hret
-  rw [h1]
+  obtain ⟨⟨_, h1c⟩, _⟩ := afterRead_iter (sh := sh) (th := th) fp1 _ _ it hb hcont hret
+  rw [h1c]
   simp only [hcurr]
   intro n hn hu hk
   exact hall n ⟨hn, hu, hk⟩
@@ -173,5 +202,14 @@ def seekDemo : Sys := (Sys.init 1).run (iterActs.take 9 ++ [.start 0 (.itSeek 2 
 example : ∃ th fp, seekDemo.threads[0]? = some th ∧ th.pc = .findNext fp false ∧ fp.cont = .iterSeek 2 ∧
     fp.item = 4 ∧ (stepThread seekDemo.sh th).2.2 = "ret 5" :=
   ⟨_, _, rfl, rfl, rfl, rfl, by decide⟩
+
+/-- the refresh path: interval 1 on the iterator of `iterDemo`; its Next moves 3 → 5 and parks at ITER_REFRESH -/
+def refreshDemo : Sys := (Sys.init 1).run (iterActs.take 10 ++ [.start 0 (.itInterval 1 1), .start 0 (.itNext 1)])
+
+example : ∃ th, refreshDemo.threads[0]? = some th ∧ th.pc = .iterNext 1 ∧
+    (stepThread refreshDemo.sh th).2.2 = "at ITER_REFRESH" ∧
+    (stepThread refreshDemo.sh th).2.1.pc = .iterRefresh 1 ∧
+    keyOf refreshDemo.sh.heap ((stepThread refreshDemo.sh th).2.1.iter 1).curr = .fin 5 :=
+  ⟨_, rfl, rfl, by decide, rfl, by decide⟩
 
 end NitroVerif.SkipConc
